@@ -71,3 +71,12 @@ def hostile_check(payload):
                 except Exception as e:
                     failures.append({"kind": kind, "value": v, "count": c, "exception": type(e).__name__ + ": " + str(e)[:100]})
     return {"total": total, "failures": failures[:5]}
+
+
+def undquote_one(p):
+    from waitress.utilities import undquote
+    try:
+        r = undquote(p["value"])
+        return {"accepted": True, "result": r}
+    except ValueError as e:
+        return {"accepted": False, "error": str(e)}
